@@ -1,5 +1,5 @@
 (** C13 — bounded work per poll (a); see DESIGN.md for the starvation bound (b) *)
-From FB Require Import Base Syntax World SlotMap Fub Unbounded Step WorldProofs UnboundedProofs CountProofs WakeProofs.
+From FB Require Import Base Syntax World SlotMap Fub Unbounded Step WorldProofs UnboundedProofs CountProofs WakeProofs FifoProofs.
 
 (** one call of the bounded core polls at most [B] children (B = the calibrated budget, 61),
     however many wake themselves continuously *)
@@ -30,3 +30,42 @@ Theorem C13_group_loop_terminates_and_accounts :
   winv (cnt (blks (groups u'))) None w' /\ fu_ok mrg u' /\ groups u' <> [] /\ loop_post mrg u u' sp.
 Proof. exact fu_loop_spec. Qed.
 Print Assumptions C13_group_loop_terminates_and_accounts.
+
+(** (b) no starvation inside a group: the ready queue is FIFO - a poll only removes a prefix of it
+    and everything woken meanwhile (self-waking children, re-armed sources, injected wakes) goes
+    behind what was already queued *)
+Theorem C13_queue_is_fifo :
+  forall (k : ckind) (n : nat) (f : fub) (t : nat) (w : world),
+  exists popped, qstep (blk f) w (snd (drain k n f t w)) popped.
+Proof. exact drain_fifo. Qed.
+Print Assumptions C13_queue_is_fifo.
+
+(** a poll whose first pop is not a forced Inconsistent answer removes at least the head ... *)
+Theorem C13_poll_pops_the_head :
+  forall (k : ckind) (n : nat) (f : fub) (t : nat) (w : world) (s : nat) (rest : list nat),
+  qof w (blk f) = s :: rest -> forced_inc (S (popk w)) (set_popk (S (popk w)) w) = false ->
+  exists popped, qstep (blk f) w (snd (drain k (S n) f t w)) (s :: popped).
+Proof. exact drain_pops_head. Qed.
+Print Assumptions C13_poll_pops_the_head.
+
+(** ... and the occupant of the head slot is the first child it polls *)
+Theorem C13_head_occupant_polled_first :
+  forall (k : ckind) (n : nat) (f : fub) (t : nat) (w : world) (s : nat) (rest : list nat) (c : child),
+  qof w (blk f) = s :: rest -> forced_inc (S (popk w)) (set_popk (S (popk w)) w) = false ->
+  sm_get (tasks f) s = Some c ->
+  exists w1, pop (blk f) w = (PopReady s, w1)
+    /\ drain k (S n) f t w =
+       (let '(c', r, w2) := poll_child k c (blk f) s w1 in
+        let f' := {| tasks := sm_set (tasks f) s c'; blk := blk f |} in
+        if is_ready r then (f', PReady s c' r, w2) else drain k n f' t w2).
+Proof. exact head_occupant_polled_first. Qed.
+Print Assumptions C13_head_occupant_polled_first.
+
+(** so an entry at position p is at position p - |popped| after the poll (or was popped): it
+    reaches the head, and its child is polled, within p + 1 such polls; p < capacity *)
+Theorem C13_position_decreases :
+  forall (q ext popped q' pre : list nat) (x : nat) (post : list nat),
+  q ++ ext = popped ++ q' -> q = pre ++ x :: post -> length popped <= length pre ->
+  exists pre' post', q' = pre' ++ x :: post' /\ length pre' + length popped = length pre.
+Proof. exact position_after. Qed.
+Print Assumptions C13_position_decreases.
